@@ -88,6 +88,35 @@ PROPS["C16"] = {
     "technique": "MIR dominance by edge removal + crate-wide field-writer enumeration + THIR decision tables",
 }
 
+PROPS["C09"] = {
+    "level": "proof",
+    "rules": [p_rs.synzero, p_rs.prov_rsdec, p_rs.tab_gen, p_rs.tab_gf, p_rs.gf_ops],
+    "explanation": "SYNZERO is a typestate argument over decode_gen's statement structure: a bit `verified` is set only on the "
+                   "all-zero edge of primitive_element_evaluation(<data.step_by(stride) ++ error.step_by(stride)>, <the whole k-entry "
+                   "syndrome buffer>) and cleared by every store into data/error; every `Ok` exit of decode_gen must see the bit set; "
+                   "primitive_element_evaluation returns the OR over all k outputs; decode() returns Ok only after every block returned "
+                   "Ok. With TAB-GEN/TAB-GF/GF-OPS (the generator of degree k has exactly the roots 2^1..2^k in the field the code "
+                   "computes in) this gives: Ok => every interleaved block has k zero syndromes => it is a codeword.",
+    "trusted_base": ["primitive_element_evaluation evaluates at alpha^1..alpha^len(out) (pinned by test_evaluate_primitive, test_primitive_element_evaluation, test_error_code)",
+                     "rustc THIR", "rules/p_rs.py typestate walk", "std iterator semantics (step_by, chain, nth)"],
+    "assumptions": ["default cargo features"],
+    "technique": "typestate (must-be-verified-at-exit) over THIR statement structure + constant-table proof obligations",
+}
+
+PROPS["C03"] = {
+    "level": "other",
+    "rules": [p_rs.prov_rsdec, p_rs.gather_scatter, p_rs.synzero, p_symbols.tab_sym, p_rs.tab_gen],
+    "explanation": "Clause-level claim: that every pattern of weight <= floor(k/2) is repaired is a theorem about Levinson-Durbin + "
+                   "Chien + Bjoerck-Pereyra over GF(256) that no static argument in reach establishes (a mutation inside the locator "
+                   "recursion is NOT detected). Decided necessary conditions, all about interleaving (the part the single-block tests "
+                   "cannot see): decode() hands block b the views data[b..], error[b..] with stride = number of blocks and err_len = k "
+                   "of that size, for every block; the corrected codeword is addressed through exactly the strided chain the syndromes "
+                   "were computed from at position n-i-1, after rejecting i >= n; success is only reported for a verified codeword "
+                   "(SYNZERO); block structure numbers and generator polynomials equal the standard.",
+    "assumptions": ["default cargo features"],
+    "technique": "provenance and shape rules over THIR (strided-view equality), typestate",
+}
+
 NOT_APPLICABLE = {
     "C17": "Correctness of the Hierholzer splice, path compression and even-odd filling depends on the topology of each "
            "bitmap; no table, guard or ordering clause of the property is visible in the shape of the code, and a rule "
